@@ -42,6 +42,14 @@ def gymCall (S : SimIface σ α ω ι) (k : MKind) (ag : Aid) (m : MState σ) (a
      | .err e => .error e
      | .resetOk _ => .error .crash, r.1, r.2)
 
+/-- a sequence of gym calls (`none` = reset, `some a` = step) -/
+def gymRun (S : SimIface σ α ω ι) (k : MKind) (ag : Aid) :
+    MState σ → List (Option α) → List (Except Err (GymOut ω ι) × Entry α ω ι)
+  | _, [] => []
+  | m, c :: cs =>
+    let r := gymCall S k ag m c
+    (r.1, r.2.1) :: gymRun S k ag r.2.2 cs
+
 /-! ## OpenSpiel -/
 
 inductive StepType where
@@ -98,18 +106,22 @@ def osReset (S : SimIface σ α ω ι) (k : MKind) (st : OSState σ) : OSCall α
   | .err e => (⟨.error e, [r.1]⟩, { st with shouldReset := false })
   | .stepOk _ => (⟨.error .crash, [r.1]⟩, st)
 
+/-- the action list as a dictionary: the current player's action in turn-based play, one action per
+learning agent otherwise -/
+def osDict (S : SimIface σ α ω ι) (k : MKind) (current : Aid) (acts : List α) :
+    Except Err (List (Aid × α)) :=
+  if k = .turnBased then
+    (match acts with
+     | [] => .error .crash                    -- IndexError
+     | a :: _ => .ok [(current, a)])
+  else if acts.length ≠ S.learners.length then .error .rejected    -- the length assertion
+  else .ok (S.learners.zip acts)
+
 def osStep (S : SimIface σ α ω ι) (k : MKind) (st : OSState σ) (acts : List α) :
     OSCall α ω ι × OSState σ :=
   if st.shouldReset then osReset S k st
   else
-    let dict? : Except Err (List (Aid × α)) :=
-      if k = .turnBased then
-        (match acts with
-         | [] => .error .crash                    -- IndexError
-         | a :: _ => .ok [(st.current, a)])
-      else if acts.length ≠ S.learners.length then .error .rejected    -- the length assertion
-      else .ok (S.learners.zip acts)
-    match dict? with
+    match osDict S k st.current acts with
     | .error e => (⟨.error e, []⟩, st)
     | .ok dict =>
       let dict' := dict.filter fun p => !(p.1 ∈ st.m.doneSet)
